@@ -139,9 +139,10 @@ def collapseEdgeToBase (cfg : Cfg Val) (n b0l l b1l b0r r b1r : Nat) : P Val Nat
   else pure ()
   pure newVid
 
-/-- `cross_product_from_vertices(&new_v, &v1, &v2).signum()` for the face of dart `d`
-    (the two reads of `is_orbit_orientation_consistent` retry when a vertex is undefined) -/
-def fanSign (n : Nat) (newV : Val) (d : Nat) : P Val Int := do
+/-- `let crossp = cross_product_from_vertices(&new_v, &v1, &v2)` for the face of dart `d`, as the two facts the check
+    uses: `crossp.is_zero()` and `crossp.signum()` (the two reads of `is_orbit_orientation_consistent` retry when a vertex
+    is undefined) -/
+def fanSign (n : Nat) (newV : Val) (d : Nat) : P Val (Bool × Int) := do
   let b1d ← rB 1 d
   let b1b1d ← rB 1 b1d
   let vid1 ← vertexId2 n b1d
@@ -153,16 +154,18 @@ def fanSign (n : Nat) (newV : Val) (d : Nat) : P Val Int := do
       let v2 ← rA 0 vid2
       match v2 with
       | none => Prog.retry
-      | some v2 => pure (crossSignum newV.p2 v1.p2 v2.p2)
+      | some v2 => pure (decide (cross newV.p2 v1.p2 v2.p2 = 0), crossSignum newV.p2 v1.p2 v2.p2)
 
-/-- `for &d in &tmp[1..] { … if ref_sign != sign { return Ok(false) } }` -/
+/-- `for &d in &tmp[1..] { … if crossp.is_zero() || ref_sign != crossp.signum() { return Ok(false) } }`
+    (/repo 94962f9: a flat triangle is refused) -/
 def fanAllSame (n : Nat) (newV : Val) (ref : Int) : List Nat → P Val Bool
   | [] => pure true
   | d :: ds => do
-      let s ← fanSign n newV d
-      if ref ≠ s then pure false else fanAllSame n newV ref ds
+      let zs ← fanSign n newV d
+      if zs.1 = true ∨ ref ≠ zs.2 then pure false else fanAllSame n newV ref ds
 
-/-- `is_orbit_orientation_consistent(t, map, vid)` -/
+/-- `is_orbit_orientation_consistent(t, map, vid)`; /repo 94962f9: the reference triangle answers `Ok(false)` when its
+    cross product `is_zero()` (before `signum`, which reports `+0.0` as positive) -/
 def isOrbitOrientationConsistent (n vid : Nat) : P Val Bool := do
   let nv ← rA 0 vid
   match nv with
@@ -172,8 +175,8 @@ def isOrbitOrientationConsistent (n vid : Nat) : P Val Bool := do
       match tmp with
       | [] => Prog.panic          -- `tmp[0]` (the orbit always yields its start)
       | d :: ds => do
-          let ref ← fanSign n newV d
-          fanAllSame n newV ref ds
+          let zr ← fanSign n newV d
+          if zr.1 = true then pure false else fanAllSame n newV zr.2 ds
 
 /-- `collapse_edge(t, map, e)` -/
 def collapseEdge (cfg : Cfg Val) (n e : Nat) : P Val Nat := do
